@@ -4,6 +4,7 @@ package main
 // Sorts: Bool, BitVec(w), Array(BitVec 64 -> BitVec w).
 
 import (
+	"sync"
 	"os"
 	"fmt"
 	"math/big"
@@ -402,6 +403,13 @@ func Eq(a, b *Term) *Term {
 	if b.IsConst() && a.Op == OIte && a.Args[1].IsConst() && a.Args[2].IsConst() {
 		return Ite(a.Args[0], Eq(a.Args[1], b), Eq(a.Args[2], b))
 	}
+	if b.IsConst() && a.S.K == SBV && a.S.W <= 64 && b.Val.IsUint64() {
+		z, o := knownBits(a)
+		v := b.Val.Uint64()
+		if v&z != 0 || ^v&o != 0 {
+			return False()
+		}
+	}
 	// zext(x) == const
 	if b.IsConst() && a.Op == OZext {
 		iw := a.Args[0].S.W
@@ -581,7 +589,7 @@ func BvAnd(a, b *Term) *Term {
 			return Zext(Extract(a, k-1, 0), w)
 		}
 	}
-	return bin(OBvAnd, a, b)
+	return foldKnown(bin(OBvAnd, a, b))
 }
 
 // seg describes bits [hi..lo] of a word: either zero or taken from a term.
@@ -837,6 +845,104 @@ func cmpc(op Op, a, b *Term) *Term {
 }
 
 // upper bound (unsigned) derivable syntactically, or nil
+// knownBits: bits of a bit-vector term (width <= 64) that are zero resp. one whatever its variables are.
+var kbMemo = map[int][2]uint64{}
+var kbMu sync.Mutex
+
+func knownBits(t *Term) (zeros, ones uint64) {
+	if t.S.K != SBV || t.S.W > 64 {
+		return 0, 0
+	}
+	w := t.S.W
+	full := ^uint64(0)
+	if w < 64 {
+		full = (uint64(1) << uint(w)) - 1
+	}
+	if t.Op == OConst {
+		v := new(big.Int).And(t.Val, mask(w)).Uint64()
+		return full &^ v, v
+	}
+	kbMu.Lock()
+	r, ok := kbMemo[t.id]
+	kbMu.Unlock()
+	if ok {
+		return r[0], r[1]
+	}
+	var z, o uint64
+	switch t.Op {
+	case OZext:
+		iz, io := knownBits(t.Args[0])
+		iw := t.Args[0].S.W
+		if iw <= 64 {
+			im := ^uint64(0)
+			if iw < 64 {
+				im = (uint64(1) << uint(iw)) - 1
+			}
+			z, o = iz|(full&^im), io
+		}
+	case OBvAnd:
+		az, ao := knownBits(t.Args[0])
+		bz, bo := knownBits(t.Args[1])
+		z, o = az|bz, ao&bo
+	case OBvOr:
+		az, ao := knownBits(t.Args[0])
+		bz, bo := knownBits(t.Args[1])
+		z, o = az&bz, ao|bo
+	case OBvXor:
+		az, ao := knownBits(t.Args[0])
+		bz, bo := knownBits(t.Args[1])
+		z, o = az&bz|ao&bo, az&bo|ao&bz
+	case OExtract:
+		if t.Args[0].S.W <= 64 {
+			az, ao := knownBits(t.Args[0])
+			z, o = az>>uint(t.N2)&full, ao>>uint(t.N2)&full
+		}
+	case OConcat:
+		az, ao := knownBits(t.Args[0])
+		bz, bo := knownBits(t.Args[1])
+		lw := uint(t.Args[1].S.W)
+		z, o = az<<lw|bz, ao<<lw|bo
+	case OBvShl:
+		if t.Args[1].IsConst() && t.Args[1].Val.IsUint64() && t.Args[1].Val.Uint64() < 64 {
+			k := uint(t.Args[1].Val.Uint64())
+			az, ao := knownBits(t.Args[0])
+			z, o = (az<<k|((uint64(1)<<k)-1))&full, ao<<k&full
+		}
+	case OBvLshr:
+		if t.Args[1].IsConst() && t.Args[1].Val.IsUint64() && t.Args[1].Val.Uint64() < 64 {
+			k := uint(t.Args[1].Val.Uint64())
+			az, ao := knownBits(t.Args[0])
+			z, o = (az>>k|^(full>>k))&full, ao>>k
+		}
+	case OIte:
+		az, ao := knownBits(t.Args[1])
+		bz, bo := knownBits(t.Args[2])
+		z, o = az&bz, ao&bo
+	}
+	z &= full
+	o &= full
+	kbMu.Lock()
+	kbMemo[t.id] = [2]uint64{z, o}
+	kbMu.Unlock()
+	return z, o
+}
+
+// foldKnown replaces a term all of whose bits are known by the constant.
+func foldKnown(t *Term) *Term {
+	if t.S.K != SBV || t.S.W > 64 || t.Op == OConst {
+		return t
+	}
+	z, o := knownBits(t)
+	full := ^uint64(0)
+	if t.S.W < 64 {
+		full = (uint64(1) << uint(t.S.W)) - 1
+	}
+	if z|o == full {
+		return BVU(o, t.S.W)
+	}
+	return t
+}
+
 func ubound(t *Term) *big.Int {
 	switch t.Op {
 	case OConst:
@@ -886,6 +992,19 @@ func BvUlt(a, b *Term) *Term {
 	if b.IsConst() {
 		if u := ubound(a); u != nil && u.Cmp(b.Val) < 0 {
 			return True()
+		}
+		if a.S.W <= 64 && b.Val.IsUint64() {
+			z, o := knownBits(a)
+			full := ^uint64(0)
+			if a.S.W < 64 {
+				full = (uint64(1) << uint(a.S.W)) - 1
+			}
+			if full&^z < b.Val.Uint64() {
+				return True()
+			}
+			if o >= b.Val.Uint64() {
+				return False()
+			}
 		}
 		if a.Op == OZext && b.Val.BitLen() <= a.Args[0].S.W {
 			return BvUlt(a.Args[0], BVC(b.Val, a.Args[0].S.W))
